@@ -107,6 +107,8 @@ class C04(Check):
         self.cov["exhaustive_orderings_up_to_r"] = maxr
         # the report and the selection of a run made with a Solver object that has run before
         solver_reuse_stage(self, "selection-with-reused-solver")
+        # the report prefix across calls that share one generator object (r' realizations, then r)
+        generator_reuse_stage(self, "prefix-with-shared-generator")
         # (b) real runs
         for k in range(60 if self.tier == "quick" else 600):
             runs["real%d" % k] = random_run(rng, tr=2, variants=ALL_VARIANTS, r=rng.randint(2, 5), maxit=rng.choice([1, 3, 11]))
@@ -383,6 +385,44 @@ def solver_reuse_stage(self, key):
                               "case": [l for l in lines2 if l.startswith(k + ".two ")][0]})
 
 
+def generator_reuse_stage(self, key):
+    """the generator is a by-value parameter of `multitensor_factorization`: a caller who keeps one generator object
+    built from the seed and hands it to a call with r1 realizations and then to a call with r2 gets from the second
+    call what a call with a fresh generator of that seed gives (same report prefix, same best)"""
+    rng = self.rng
+    n = 24 if self.tier == "quick" else 200
+    pairs, lines = {}, []
+    for k in range(n):
+        directed, assort, init = rng.choice(ALL_VARIANTS)
+        b = random_run(rng, variants=[(directed, assort, init)], ltwt=("u", "u"), r=rng.randint(1, 4),
+                       maxit=rng.choice([1, 3, 11, 21]), nconv=rng.choice([1, 2, 10]), heavy=False)
+        r1 = rng.randint(1, 3)
+        pairs["g%d" % k] = (b, r1)
+        lines.append(gen.case_runshared("g%d.shared" % k, directed, assort, init, b.K, b.recs, b.L, r1, b.r, b.maxit, b.nconv,
+                                        b.seed, b.aff))
+        lines.append(b.line("g%d.fresh" % k))
+    if not self.bdir:
+        return
+    o2, cr2 = C.run_impl(self.bdir, lines)
+    self.cov["evaluations"] += len(lines)
+    for cid, line, err, code in cr2:
+        self.on_crash("runshared", cid, line, err, code)
+    for k, (b, r1) in pairs.items():
+        x, y = o2.get(k + ".shared"), o2.get(k + ".fresh")
+        if not x or not y or y.get("err") != ["0"]:
+            continue
+        self.monitor("generator-object histories")
+        self.nontrivial(("generator-reuse", str(b.recs), b.seed, r1, b.r))
+        diff = [f for f in ("labels", "u", "aff", "iters", "reasons", "L2s", "maxL2", "nreal") + (("v",) if b.directed else ())
+                if x.get(f) != y.get(f)]
+        if diff:
+            self.violate(key, "a call handed a generator object that an earlier call (r=%d) was handed too gives different %s "
+                              "than a call with a fresh generator of the same seed" % (r1, ",".join(diff)),
+                         {"variant": b.variant(), "problem": b.describe(), "realizations_of_the_earlier_call": r1,
+                          "with_reused_generator": {f: x.get(f) for f in diff}, "fresh": {f: y.get(f) for f in diff},
+                          "case": [l for l in lines if l.startswith(k + ".shared ")][0]})
+
+
 class C07(Check):
     pid = "C07"
     lean_modules = ["MTProps.C07", "MTProps.CodeRun", "MTProps.CodeMain"]
@@ -463,6 +503,7 @@ class C07(Check):
                                           case=RunCase(**dict(rc.__dict__, prior=p, vshape=pi)).line("replay")))
                         break
         solver_reuse_stage(self, "solver-object-state")
+        generator_reuse_stage(self, "generator-object-state")
         self.sample({"history": [l.split(" ")[0] for l in lines[:12]], "priors": [str(p) for p in priors]})
         self.cov["rule"] = ("histories in one process: the same call under 5 different prior contents of the output containers (0, 5, -5, NaN, 1e300) and 5 prior shapes of the unvalidated in-membership container (N x K, K x N, NK x 1, empty, (N+1) x K), "
                             "in shuffled order, interleaved with unrelated calls of other variants, then repeated, then in a fresh process; one Solver object run on two problems vs a fresh one; "
